@@ -1,6 +1,7 @@
 package main
 
 import (
+	"fmt"
 	"go/ast"
 	"go/constant"
 	"go/token"
@@ -361,4 +362,135 @@ func extractC05(repo string, o *Out) {
 func c05body(p *Pkg, fd *ast.FuncDecl) string {
 	defer p.normalise(fd)()
 	return renumberDecl(normSrc(p.Src(fd.Body)))
+}
+
+func init() {
+	inner := extractors["C05"]
+	extractors["C05"] = func(repo string, o *Out) {
+		inner(repo, o)
+		if p, err := load(repo, "sched"); err == nil {
+			translateC05(p, o)
+		} else {
+			o.problem("translate: load: %v", err)
+		}
+	}
+}
+
+// translateC05 emits (translate.go) the index arithmetic of HHWheelTimer.addNode — the two clamp tests, the expiry tick
+// `idx`, the condition and the slot expression of every branch of the level chain — and of shiftWheels (the wrap test of
+// the near wheel, the first `ticks`, the slot that comes up, the shift to the next level), as functions of the fields
+// and locals they read. The expressions are found by their place in the function, not by the names of the locals.
+func translateC05(p *Pkg, o *Out) {
+	tr := newTr(p, o, 64)
+	defer tr.Emit("Tr")
+	add := p.Func("HHWheelTimer", "addNode")
+	var inits, conds, slots []ast.Expr
+	var clamp []ast.Expr
+	if add != nil && add.Body != nil {
+		for _, st := range add.Body.List {
+			switch x := st.(type) {
+			case *ast.DeclStmt:
+				if gd, ok := x.Decl.(*ast.GenDecl); ok {
+					for _, sp := range gd.Specs {
+						if vs, ok := sp.(*ast.ValueSpec); ok && len(vs.Names) == 1 && len(vs.Values) == 1 {
+							inits = append(inits, vs.Values[0])
+						}
+					}
+				}
+			case *ast.IfStmt:
+				if x.Else == nil {
+					clamp = append(clamp, x.Cond)
+					continue
+				}
+				// the level chain: if c0 { …near[e0] } else if c1 { idx = e1 … } … else { idx = e4 … }
+				var body func(b *ast.BlockStmt)
+				body = func(b *ast.BlockStmt) {
+					n := 0
+					ast.Inspect(b, func(y ast.Node) bool {
+						switch z := y.(type) {
+						case *ast.AssignStmt:
+							if z.Tok == token.ASSIGN && len(z.Lhs) == 1 && len(z.Rhs) == 1 {
+								if _, isId := z.Lhs[0].(*ast.Ident); isId {
+									if _, isU := z.Rhs[0].(*ast.UnaryExpr); !isU { // not `bucket = &…`
+										slots = append(slots, z.Rhs[0])
+										n++
+									}
+								}
+							}
+						}
+						return true
+					})
+					if n == 0 { // the near branch: the index of its only index expression
+						ast.Inspect(b, func(y ast.Node) bool {
+							if ix, ok := y.(*ast.IndexExpr); ok && n == 0 {
+								slots = append(slots, ix.Index)
+								n++
+							}
+							return true
+						})
+					}
+				}
+				for cur := x; cur != nil; {
+					conds = append(conds, cur.Cond)
+					body(cur.Body)
+					switch e := cur.Else.(type) {
+					case *ast.IfStmt:
+						cur = e
+					case *ast.BlockStmt:
+						body(e)
+						cur = nil
+					default:
+						cur = nil
+					}
+				}
+			}
+		}
+	}
+	at := func(l []ast.Expr, i int) ast.Expr {
+		if i < len(l) {
+			return l[i]
+		}
+		return nil
+	}
+	tr.Expr("addNode_neg", add, at(clamp, 0), "HHWheelTimer.addNode: the condition of its first clamp (ticks below zero)")
+	tr.Expr("addNode_over", add, at(clamp, 1), "HHWheelTimer.addNode: the condition of its second clamp (ticks above the maximum)")
+	tr.Expr("addNode_idx", add, at(inits, 1), "HHWheelTimer.addNode: the initialiser of its second local (idx, the expiry tick)")
+	if len(conds) != 4 || len(slots) != 5 {
+		o.problem("untranslatable: HHWheelTimer.addNode: the level chain does not have 4 conditions and 5 slot expressions (%d, %d)", len(conds), len(slots))
+	}
+	for i := 0; i < 4; i++ {
+		tr.Expr(fmt.Sprintf("addNode_c%d", i), add, at(conds, i), fmt.Sprintf("HHWheelTimer.addNode: condition %d of the level chain", i))
+	}
+	for i := 0; i < 5; i++ {
+		tr.Expr(fmt.Sprintf("addNode_s%d", i), add, at(slots, i), fmt.Sprintf("HHWheelTimer.addNode: slot expression of branch %d of the level chain", i))
+	}
+	sh := p.Func("HHWheelTimer", "shiftWheels")
+	var shConds, shInits []ast.Expr
+	var step ast.Expr
+	if sh != nil && sh.Body != nil {
+		ast.Inspect(sh.Body, func(y ast.Node) bool {
+			switch z := y.(type) {
+			case *ast.ValueSpec:
+				if len(z.Names) == 1 && len(z.Values) == 1 {
+					shInits = append(shInits, z.Values[0])
+				}
+			case *ast.AssignStmt:
+				if op, ok := assignOps[z.Tok]; ok && len(z.Lhs) == 1 && len(z.Rhs) == 1 {
+					syn := &ast.BinaryExpr{X: z.Lhs[0], OpPos: z.TokPos, Op: op, Y: z.Rhs[0]}
+					p.Info.Types[syn] = p.Info.Types[z.Lhs[0]]
+					step = syn
+				}
+			}
+			return true
+		})
+		for _, st := range sh.Body.List {
+			if is, ok := st.(*ast.IfStmt); ok && is.Init == nil {
+				shConds = append(shConds, is.Cond)
+			}
+		}
+	}
+	tr.Expr("shift_skip", sh, at(shConds, 0), "HHWheelTimer.shiftWheels: the condition of its first if (the near wheel did not wrap)")
+	tr.Expr("shift_ticks", sh, at(shInits, 1), "HHWheelTimer.shiftWheels: the initialiser of its second local (ticks)")
+	tr.Expr("shift_slot", sh, at(shInits, 2), "HHWheelTimer.shiftWheels: the initialiser of the loop's local (idx, the slot that comes up)")
+	tr.Expr("shift_next", sh, step, "HHWheelTimer.shiftWheels: the compound assignment at the end of the loop body (ticks for the next level)")
 }
